@@ -401,3 +401,125 @@ Theorem C02_run_foreign_hello_never_completes :
   c_status (h_conn (jB n)) <> CONNECTED.
 Proof. exact run_foreign_hello_never_completes_proof. Qed.
 Print Assumptions C02_run_foreign_hello_never_completes.
+
+(* ---- non-vacuity of the run-level theorems: complete symbolic histories over the ideal scheme of
+   Extract/U_Handshake.v.  Loadb / dumpb are tables: [1] = ClientHello(pub 3, version 1),
+   [2] = B's hello (root 5, (pub 11, salt 13, tok1)), [3] = ChallengeResp(tok1),
+   [4] = the hello of ANOTHER session of the same server (root 5, (pub 17, salt 19, tok2)),
+   [5] = ChallengeResp(tok2). ---- *)
+Definition env_x : env := {| e_max_payload := 1434; e_max_frag := 1024; e_max_frags := 8192 |}.
+Definition tok1 : Z := 1073741825.
+Definition tok2 : Z := 1073741827.
+Definition pB : sh_payload := {| sp_pub := 11; sp_salt := 13; sp_token := tok1 |}.
+Definition pO : sh_payload := {| sp_pub := 17; sp_salt := 19; sp_token := tok2 |}.
+Definition tbl : tables :=
+  {| t_parse := [([x01], MClientHello 3 1 true); ([x02], MServerHello 5 pB (5, pB)); ([x03], MChallenge tok1);
+                 ([x04], MServerHello 5 pO (5, pO)); ([x05], MChallenge tok2)];
+     t_shello := [(13, [x02]); (19, [x04])];
+     t_chal := [(tok1, [x03]); (tok2, [x05])] |}.
+Notation xjrun := (jrun tsig t_pub t_sign t_verify t_dh t_kdf (T_parse tbl) (T_shello tbl) (T_chal tbl)).
+Notation xdy_run := (dy_run tsig t_pub t_sign t_verify t_dh t_kdf (T_parse tbl) (T_shello tbl) (T_chal tbl)).
+Notation xsealed_run := (sealed_run tsig t_pub t_sign t_verify t_dh t_kdf (T_parse tbl) (T_shello tbl) (T_chal tbl)).
+Notation xconnects := (connects tsig t_pub t_sign t_verify t_dh t_kdf (T_shello tbl) (T_chal tbl)).
+Definition dg_x : dgram := {| d_hdr := Build_header true 0 0 0 APP 0 0 0; d_body := Bad |}.
+Definition lastAB (n : hnet tsig) : dgram := last (jAB n) dg_x.
+Definition lastBA (n : hnet tsig) : dgram := last (jBA n) dg_x.
+(* client: ephemeral 3, pinned to root 5; server-side connection: ephemeral 11, root 5 *)
+Definition n0 : hnet tsig := hnet0 tsig 3 (Some (t_pub 5)) 11 5 [(13, tok1)].
+Definition h1 : list jev := [JA (HConnect 1000 [x01]); JA (HTick 2000 HxNone)].
+Definition N1 := xjrun env_x n0 h1.
+Definition h2 : list jev := [JB (HRecv 3000 (lastAB N1)); JB (HOther (EServerTick 4000))].
+Definition N2 := xjrun env_x N1 h2.
+Definition h3 : list jev := [JA (HTick 5000 (HxDgram (lastBA N2)))].
+Definition N3 := xjrun env_x N2 h3.
+Definition h4 : list jev := [JB (HRecv 6000 (lastAB N3))].
+Definition N4 := xjrun env_x N3 h4.
+Definition hh : list jev := h1 ++ h2 ++ h3 ++ h4.
+
+Ltac dy_goal :=
+  match goal with
+  | |- True => exact I
+  | |- forall d m, hev_dgram ?x = Some d -> _ =>
+      let d := fresh "d" in let m := fresh "m" in let Hd := fresh "Hd" in let Hm := fresh "Hm" in
+      intros d m Hd Hm; cbn [hev_dgram] in Hd;
+      first [ discriminate Hd
+            | (let ko := fresh "ko" in let ms := fresh "ms" in let w := fresh "w" in
+               let OD := fresh "OD" in let Iw := fresh "Iw" in
+               destruct Hm as (ko & ms & w & OD & Iw & <-);
+               match type of Hd with Some ?D = Some _ => assert (d = D) as -> by congruence end;
+               destruct ko as [k|]; vm_compute in OD; [discriminate OD|];
+               injection OD as <-; destruct Iw as [<-|[]];
+               vm_compute; intros sk _; right; exists 5; auto 10) ]
+  end.
+Ltac sealed_goal :=
+  match goal with
+  | |- True => exact I
+  | |- forall d ms, hev_dgram ?x = Some d -> _ =>
+      let d := fresh "d" in let ms := fresh "ms" in let Hd := fresh "Hd" in let K := fresh "K" in let OD := fresh "OD" in
+      intros d ms Hd K OD; cbn [hev_dgram] in Hd;
+      first [ discriminate Hd
+            | (exfalso; apply K; vm_compute; reflexivity)
+            | (match type of Hd with Some ?D = Some _ => assert (d = D) as -> by congruence end;
+               first [ vm_compute in OD; discriminate OD | vm_compute; auto 10 ]) ]
+  end.
+
+(* the honest complete handshake: every hypothesis of R1-R3 holds, both ends CONNECTED with the same key
+   and token, the client holds the hello B signed last, B signed it for the client's key, one connect *)
+Example C02_run_honest_example :
+  ~ In 5 [7] /\
+  xdy_run env_x 5 [7] [pO] n0 hh /\ xsealed_run env_x n0 hh /\ xjrun env_x n0 hh = N4 /\
+  h_adopted (jA N4) = Some (5, pB, t_sign 5 pB) /\
+  last (map Some (signed_log tsig t_pub (gB N4))) None = Some (t_pub 3, pB) /\
+  c_status (h_conn (jA N4)) = CONNECTED /\ c_status (h_conn (jB N4)) = CONNECTED /\
+  c_key (h_conn (jA N4)) = Some (t_kdf (t_dh 3 (t_pub 11)) 13) /\ c_key (h_conn (jB N4)) = c_key (h_conn (jA N4)) /\
+  c_token (h_conn (jA N4)) = tok1 /\ c_token (h_conn (jB N4)) = tok1 /\
+  map (fun j => xconnects (snd j)) (gB N4) = [false; true].
+Proof.
+  split; [intros [H|[]]; discriminate H|].
+  split.
+  { unfold hh, h1, h2, h3, h4. cbn [app dy_run dy_ev]. repeat match goal with |- _ /\ _ => split end. all: dy_goal. }
+  split.
+  { unfold hh, h1, h2, h3, h4. cbn [app sealed_run sealed_ev]. repeat match goal with |- _ /\ _ => split end. all: sealed_goal. }
+  split; [vm_compute; reflexivity|]. vm_compute. repeat split; reflexivity.
+Qed.
+
+(* the replayed hello.  Another session of the same server (ephemeral 17, same root 5) answered the same
+   client hello; the attacker withholds B's hello and hands the client that other session's genuine hello.
+   The client verifies it (it IS signed by the pinned root key), adopts key kdf(dh 3 17, 19) and token
+   tok2 and reports CONNECTED; B holds kdf(dh 11 3, 13), cannot open the client's challenge response,
+   never reports connect and stays CONNECTING.  All hypotheses of R1-R3 hold, including R3's premise. *)
+Definition m0 : hnet tsig := hnet0 tsig 3 (Some (t_pub 5)) 17 5 [(19, tok2)].
+Definition M2 := xjrun env_x m0 (h1 ++ [JB (HRecv 3000 (lastAB N1)); JB (HOther (EServerTick 4000))]).
+Definition d_other : dgram := lastBA M2.
+Definition r3 : list jev := [JA (HTick 5000 (HxDgram d_other))].
+Definition R3 := xjrun env_x N2 r3.
+Definition r4 : list jev := [JB (HRecv 6000 (lastAB R3))].
+Definition R4 := xjrun env_x R3 r4.
+Definition hr : list jev := h1 ++ h2 ++ r3 ++ r4.
+
+Example C02_run_replayed_hello_example :
+  xdy_run env_x 5 [7] [pO] n0 hr /\ xsealed_run env_x n0 hr /\ xjrun env_x n0 hr = R4 /\
+  h_adopted (jA R4) = Some (5, pO, t_sign 5 pO) /\
+  c_status (h_conn (jA R4)) = CONNECTED /\
+  c_key (h_conn (jA R4)) = Some (t_kdf (t_dh 3 (t_pub 17)) 19) /\ c_token (h_conn (jA R4)) = tok2 /\
+  c_status (h_conn (jB R4)) = CONNECTING /\
+  c_key (h_conn (jB R4)) = Some (t_kdf (t_dh 11 (t_pub 3)) 13) /\ c_token (h_conn (jB R4)) = tok1 /\
+  c_key (h_conn (jB R4)) <> c_key (h_conn (jA R4)) /\
+  c_dropped (h_conn (jB R4)) = 1 /\
+  map (fun j => xconnects (snd j)) (gB R4) = [false] /\
+  (forall dA kA sA rp pl sg, In (dA, kA, (sA, SERVER_HELLO, MServerHello rp pl sg)) (gA R4) ->
+     t_verify (t_pub 5) sg pl = true ->
+     forall d k0 en, In (d, k0, en) (gB R4) -> k0 <> Some (client_key t_dh t_kdf 3 pl)).
+Proof.
+  split.
+  { unfold hr, h1, h2, r3, r4. cbn [app dy_run dy_ev]. repeat match goal with |- _ /\ _ => split end. all: dy_goal. }
+  split.
+  { unfold hr, h1, h2, r3, r4. cbn [app sealed_run sealed_ev]. repeat match goal with |- _ /\ _ => split end. all: sealed_goal. }
+  split; [vm_compute; reflexivity|].
+  repeat match goal with |- _ /\ _ => split end; try (vm_compute; reflexivity).
+  - vm_compute. intros H. discriminate H.
+  - intros dA kA sA rp pl sg _ _ d k0 en Hin.
+    assert (E : map (fun j => snd (fst j)) (gB R4) = [None]) by (vm_compute; reflexivity).
+    assert (X : In k0 (map (fun j => snd (fst j)) (gB R4))) by (apply in_map_iff; exists (d, k0, en); auto).
+    rewrite E in X. destruct X as [<-|[]]. discriminate.
+Qed.
